@@ -111,4 +111,94 @@ example : ∃ p', xstep exK exPool (.identity [0] 2 3) = .ok (p', []) ∧
     p'.length = 3 ∧ p'[0]? = exPool[0]? ∧ p'[1]? = exPool[1]? :=
   ⟨_, rfl, rfl, rfl, rfl⟩
 
+/-! ## operator-graph methods on a pool of graphs
+
+`simplify`, `flip`, `rename_node_id`, `rename_edge_id`, `merge_edges` and `add` are methods that update one graph in place;
+`add` reads a second graph.  On a pool of graphs each is a function of the target (and, for `add`, of the value of the other
+graph): the call writes the target slot and nothing else -- "graph addition ... never [modifies] the other graph".  The
+graph functions are those of `Model/OpGraph.lean`, compared call by call with the real methods by the C16 / C19
+correspondences (`og.rewrite`: result, `other` unchanged, no shared node / edge objects). -/
+
+section graphs
+variable {κ : Type} [Add κ] [Mul κ] [OfNat κ 0] [OfNat κ 1] [DecidableEq κ]
+
+inductive GOp where
+  | simplify (i : Nat)
+  | flip (i : Nat)
+  | renameNode (i : Nat) (cur new : Int)
+  | renameEdge (i : Nat) (cur new : Int)
+  | mergeEdges (i : Nat) (eid1 eid2 : Int) (direction : Bool)
+  | add (i j : Nat)                       -- pool[i].add(pool[j])
+
+def GOp.target : GOp → Nat
+  | .simplify i | .flip i | .renameNode i _ _ | .renameEdge i _ _ | .mergeEdges i _ _ _ | .add i _ => i
+
+/-- one in-place method call on a pool of operator graphs -/
+def gstep (p : List (Og.Graph κ)) (op : GOp) : Except Err (List (Og.Graph κ)) :=
+  match p[op.target]? with
+  | none => .error .index
+  | some g =>
+    (match op with
+      | .simplify _ => g.simplify
+      | .flip _ => .ok g.flip
+      | .renameNode _ c n => g.renameNodeId c n
+      | .renameEdge _ c n => g.renameEdgeId c n
+      | .mergeEdges _ e1 e2 d => g.mergeEdges e1 e2 d
+      | .add _ j => match p[j]? with
+          | some o => g.add o
+          | none => .error .index) >>= fun g' => .ok (p.set op.target g')
+
+/-- **Frame of a graph method**: the pool keeps its length and every graph other than the documented target -- in
+particular the second operand of `add` -- holds the same value afterwards. -/
+theorem gstep_frame {p p' : List (Og.Graph κ)} {op : GOp} (h : gstep p op = .ok p') :
+    p'.length = p.length ∧ ∀ i, i ≠ op.target → p'[i]? = p[i]? := by
+  unfold gstep at h
+  split at h
+  · cases h
+  · rename_i g hg
+    simp only [bind, Except.bind] at h
+    split at h
+    · cases h
+    · rename_i g' _
+      simp only [Except.ok.injEq] at h
+      subst h
+      exact ⟨by simp, fun i hi => List.getElem?_set_ne (fun e => hi e.symm)⟩
+
+/-- `other` is untouched by `add` (when it is not the target itself) -/
+theorem gstep_add_other {p p' : List (Og.Graph κ)} {i j : Nat} (h : gstep p (.add i j) = .ok p') (hne : j ≠ i) :
+    p'[j]? = p[j]? := (gstep_frame h).2 j hne
+
+/-- any sequence of graph methods: a graph changes only at calls that name it as target -/
+theorem gsteps_frame {p p' : List (Og.Graph κ)} {ops : List GOp}
+    (h : ops.foldlM (fun q op => gstep q op) p = .ok p') :
+    p'.length = p.length ∧ ∀ i, (∀ op ∈ ops, op.target ≠ i) → p'[i]? = p[i]? := by
+  induction ops generalizing p with
+  | nil =>
+    simp only [List.foldlM, pure, Except.pure, Except.ok.injEq] at h
+    subst h
+    exact ⟨rfl, fun _ _ => rfl⟩
+  | cons op ops ih =>
+    simp only [List.foldlM, bind, Except.bind] at h
+    split at h
+    · cases h
+    · rename_i p1 hs
+      obtain ⟨l1, f1⟩ := gstep_frame hs
+      obtain ⟨l2, f2⟩ := ih h
+      refine ⟨l2.trans l1, fun i hi => ?_⟩
+      rw [f2 i (fun op' hop => hi op' (List.mem_cons_of_mem _ hop))]
+      exact f1 i (fun e => hi op List.mem_cons_self e.symm)
+
+end graphs
+
+/-- non-vacuity: `add` on a pool of two copies of a one-edge graph over `Int` succeeds and leaves slot 1 as it is -/
+example : ∃ p', gstep (κ := Int) [⟨[(0, ⟨0, [], [0], 0⟩), (1, ⟨1, [0], [], 0⟩)], [(0, ⟨0, (0, 1), [(5, 3)]⟩)], (0, 1)⟩,
+      ⟨[(0, ⟨0, [], [0], 0⟩), (1, ⟨1, [0], [], 0⟩)], [(0, ⟨0, (0, 1), [(5, 4)]⟩)], (0, 1)⟩] (.add 0 1) = .ok p' ∧
+    p'[1]? = some ⟨[(0, ⟨0, [], [0], 0⟩), (1, ⟨1, [0], [], 0⟩)], [(0, ⟨0, (0, 1), [(5, 4)]⟩)], (0, 1)⟩ := by
+  have h : (gstep (κ := Int) [⟨[(0, ⟨0, [], [0], 0⟩), (1, ⟨1, [0], [], 0⟩)], [(0, ⟨0, (0, 1), [(5, 3)]⟩)], (0, 1)⟩,
+      ⟨[(0, ⟨0, [], [0], 0⟩), (1, ⟨1, [0], [], 0⟩)], [(0, ⟨0, (0, 1), [(5, 4)]⟩)], (0, 1)⟩] (.add 0 1)).isOk = true := by decide
+  cases hr : gstep (κ := Int) [⟨[(0, ⟨0, [], [0], 0⟩), (1, ⟨1, [0], [], 0⟩)], [(0, ⟨0, (0, 1), [(5, 3)]⟩)], (0, 1)⟩,
+      ⟨[(0, ⟨0, [], [0], 0⟩), (1, ⟨1, [0], [], 0⟩)], [(0, ⟨0, (0, 1), [(5, 4)]⟩)], (0, 1)⟩] (.add 0 1) with
+  | error e => rw [hr] at h; cases h
+  | ok p' => exact ⟨p', rfl, by rw [gstep_add_other hr (by decide)]; rfl⟩
+
 end Ptn.C19
